@@ -38,9 +38,13 @@ CheckGrad(e) ==
      ELSE IF \E v \in (1..V) \ free : ~(e.wgrad[v].k = "q" /\ e.wgrad[v].zero) THEN "fixed_variable_gradient_nonzero"
      ELSE IF \E f \in 1..3 : judged(f) /\ g.est[f] = "mean" /\ \E v \in free : x.grad[f][v].st = "val" /\ ~ObsEq(e.grad[f][v], gq(f, v))
           THEN (IF e.merged THEN "merged_gradient_value" ELSE "mean_gradient_value")
-     ELSE IF \E f \in 1..3 : judged(f) /\ g.est[f] = "std" /\ var(f)[1] > 0 /\ \E v \in free :
-               x.grad[f][v].st = "val" /\ ~(/\ ObsEq(e.grad[f][v], <<gq(f, v)[1] * gq(f, v)[1] * var(f)[2], gq(f, v)[2] * gq(f, v)[2] * var(f)[1]>>)
-                                            /\ (gq(f, v)[1] # 0 => e.grad[f][v].neg = (gq(f, v)[1] < 0)))
+     \* standard deviation: when function and gradient use the same realizations, gradient x reported deviation = q (small
+     \* denominators); otherwise the square of the gradient entry = q^2 / Var over the gradient's own set
+     ELSE IF \E f \in 1..3 : judged(f) /\ g.est[f] = "std" /\ var(f)[1] > 0 /\ \E v \in free : x.grad[f][v].st = "val" /\
+               (IF FailedG(g) = FailedF(g) /\ e.gradsig[f][v].k = "q"
+                THEN ~ObsEq(e.gradsig[f][v], gq(f, v))
+                ELSE ~(/\ ObsEq(e.grad[f][v], <<gq(f, v)[1] * gq(f, v)[1] * var(f)[2], gq(f, v)[2] * gq(f, v)[2] * var(f)[1]>>)
+                       /\ (gq(f, v)[1] # 0 => e.grad[f][v].neg = (gq(f, v)[1] < 0))))
           THEN "stddev_gradient_value"
      ELSE IF judged(1) /\ judged(2) /\ g.est[1] = "mean" /\ g.est[2] = "mean"
              /\ (\A v \in free : x.grad[1][v].st = "val" /\ x.grad[2][v].st = "val")
